@@ -172,7 +172,7 @@ class Ctx:
             res["generated"], res["distinct"] = res["_pg"]
         if rc == 124 or rc == 137:
             status = "timeout"
-        elif any("violated" in e for e in err) or rc in (12, 13):
+        elif any("violated" in e or "Deadlock reached" in e for e in err) or rc in (11, 12, 13):
             status = "violation"
         elif rc != 0 or err:
             status = "error"
@@ -220,7 +220,7 @@ class Ctx:
             print("KNOWN-FINDING: property=%s %s (%s)" % (self.pid, k["what"], k["key"]))
         rc = 0
         if new:
-            rdir = os.path.join(VERIF, "replays", self.pid)
+            rdir = os.path.join(VERIF if REPO == "/repo" else os.path.join(SHM, "verif"), "replays", self.pid)
             os.makedirs(rdir, exist_ok=True)
             for v, _ in new:
                 h = hashlib.sha1((v["key"]).encode()).hexdigest()[:10]
@@ -248,9 +248,10 @@ class Ctx:
         ev = {"property_id": self.pid, "tier": self.tier, "seed": int(self.seed), "level": level,
               "coverage": cov, "assumptions": self.assumptions, "wall_s": round(time.time() - self.t0, 2),
               "violations": len(new)}
+        evdir = os.path.join(VERIF, "evidence") if REPO == "/repo" else os.path.join(SHM, "verif", "evidence-alt")
         if rc != 2:
-            os.makedirs(os.path.join(VERIF, "evidence"), exist_ok=True)
-            with open(os.path.join(VERIF, "evidence", self.pid + ".json"), "w") as f:
+            os.makedirs(evdir, exist_ok=True)
+            with open(os.path.join(evdir, self.pid + ".json"), "w") as f:
                 json.dump(ev, f, indent=1, default=str)
         if os.environ.get("VERIF_KEEP") != "1":
             shutil.rmtree(self.scratch, ignore_errors=True)
